@@ -11,7 +11,7 @@ use crate::kernel::Predicate;
 impl Predicate<Transaction> for TxnFilterBBoxLatLon {
     fn eval(&self, txn: &Transaction) -> bool {
         txn.header.location.as_ref().is_some_and(|point| {
-            if self.west < self.east {
+            if self.west <= self.east {
                 self.south <= point.lat
                     && point.lat <= self.north
                     && self.west <= point.lon
